@@ -37,8 +37,8 @@ func init() {
 		},
 		Run:            run,
 		Finish:         finish,
-		MinEvaluations: map[string]int{"quick": 400000, "thorough": 8000000},
-		MinNontrivial:  map[string]int{"quick": 100000, "thorough": 2000000},
+		MinEvaluations: map[string]int{"quick": 500000, "thorough": 10000000},
+		MinNontrivial:  map[string]int{"quick": 150000, "thorough": 4000000},
 		RequiredObs: []string{"calls:dense", "calls:sparse", "cert:rotation", "cert:K5", "cert:K3,3", "cert:edge-bound",
 			"classes_n=8", "family:stacked", "family:flipped", "family:plane", "family:outerplanar", "family:grid", "family:blocktree",
 			"family:overlay", "family:nearplanar", "family:random", "family:hubs", "family:named", "verdict:planar", "verdict:nonplanar",
@@ -264,6 +264,17 @@ func finish(s *engine.Super) {
 	if s.Thorough() {
 		if got, want := s.Obs("classes_n=9"), polya.Graphs(9).Int64(); got != want {
 			s.Inconclusive(fmt.Sprintf("input source: search.All(9) produced %d classes, Polya count is %d", got, want))
+		}
+	}
+	// the certified reference must reproduce the number of planar graphs (A005470) on the exhaustive class lists
+	a005470 := []int64{1, 1, 2, 4, 11, 33, 142, 822, 6966, 79853}
+	top := 8
+	if s.Thorough() {
+		top = 9
+	}
+	for n := 0; n <= top; n++ {
+		if got := s.Obs(fmt.Sprintf("planar_classes_n=%d", n)); got != a005470[n] {
+			s.Inconclusive(fmt.Sprintf("oracle: %d classes on %d vertices certified planar, A005470 says %d", got, n, a005470[n]))
 		}
 	}
 	if u := s.Obs("uncertified"); u > 0 {
